@@ -57,7 +57,17 @@ fn par_ranges<F: Fn(u64, u64) -> Option<Failure> + Sync>(n: u64, f: F) -> Option
                 if a >= b {
                     return;
                 }
-                if let Some(x) = f(a, b) {
+                // enumeration chunks are long: split them so that the watchdog sees progress
+                let step = ((b - a) / 64).max(1);
+                let mut lo = a;
+                let mut res = None;
+                while lo < b && res.is_none() {
+                    let hi = (lo + step).min(b);
+                    res = f(lo, hi);
+                    crate::runner::tick();
+                    lo = hi;
+                }
+                if let Some(x) = res {
                     let mut o = out.lock().unwrap();
                     if o.as_ref().map(|(w, _)| *w > t).unwrap_or(true) {
                         *o = Some((t, x));
